@@ -42,7 +42,7 @@ func jsonFamilyOrException(t *lib.Tree, ch lib.Chain) (string, string) {
 	if len(path) < 3 {
 		return "miss", "stopped at text/plain"
 	}
-	if t.ChildIndex(path[2]) < t.ChildIndex(jsonID) {
+	if t.ChildIndex(path[2]) < t.ChildIndex(jsonID) && pinnedPrecedes(t.Nodes[path[2]].MIME, "application/json") {
 		return "exception", t.Nodes[path[2]].MIME
 	}
 	return "miss", "a lower-priority text format (" + t.Nodes[path[2]].MIME + ") was reported"
